@@ -81,6 +81,7 @@ def bounds(tier, seed):
         scalings=[0.5, 3.0],
         index_choices=["default", "disjoint", "overlapping", "train=test"],
         estimators=["default", "fixed-alpha Ridge2FoldCV", "sklearn Ridge"],
+        scalers=["default (whole matrix)", "user-supplied column-wise StandardFlexibleScaler (shift / rescaling / local cases)"],
         n_local_points="2..n_train",
         seed=seed,
     )
@@ -120,6 +121,8 @@ def cases(group):
             for measure in ("GRE", "GRD", "LRE"):
                 for idx in ("default", "disjoint", "overlapping", "train=test"):
                     ests = ["fixed", "ridge"] if tr[0] == "tgtrot" else ["default", "fixed", "ridge"]
+                    if tr[0] in ("scaleX", "scaleY", "shiftX", "shiftY"):
+                        ests = ests + ["fixed+cw"]  # column-wise user scaler: shift / rescaling invariance still holds
                     if group["tier"] == "quick" and tr[0] in ("srcrot", "tgtrot") and idx in ("overlapping",) and measure != "GRE":
                         continue
                     for est in ests:
@@ -127,7 +130,7 @@ def cases(group):
                             continue
                         yield dict(kind=k, px=px, py=py, n=group["n"], tr=[tr[0], tr[1]], measure=measure, idx=idx, est=est, seed=group["seed"])
     else:
-        for est in (group["est"],):
+        for est in (group["est"], group["est"] + "+cw"):
             for idx in ("default", "disjoint", "train=test"):
                 yield dict(kind=k, px=group["px"], py=group["py"], n=group["n"], est=est, idx=idx, seed=group["seed"])
 
@@ -158,7 +161,13 @@ def _measure(name, X, Y, idx, est, pointwise=False, n_local=None):
     import skmatter.metrics as M
 
     tr, te = _indices(idx, len(X))
+    user_scaler = est.endswith("+cw")
+    est = est.replace("+cw", "")
     kw = dict(train_idx=tr, test_idx=te, estimator=_estimator(est))
+    if user_scaler:  # a user-supplied (column-wise) scaler object
+        from skmatter.preprocessing import StandardFlexibleScaler
+
+        kw["scaler"] = StandardFlexibleScaler(column_wise=True)
     fn = {
         ("GRE", False): M.global_reconstruction_error,
         ("GRE", True): M.pointwise_global_reconstruction_error,
@@ -251,7 +260,7 @@ def check(case):
                     "not-invariant-under-%s" % kind,
                     "%s(%dx%d -> %d, indices %s, estimator %s): %.10g vs %.10g" % (name, n, px, py, idx, est, got, base),
                 )
-            if name == "GRE" and idx == "train=test" and base > 1 + 1e-9:
+            if name == "GRE" and idx == "train=test" and not est.endswith("+cw") and base > 1 + 1e-9:
                 return r.fail("training-set-gre-exceeds-one", "%.10g" % base)
             r.nontrivial = base > 1e-3
             r.outcome = [name, idx, est, round(base, 8)]
@@ -270,7 +279,7 @@ def check(case):
                 return r.fail("global-not-rms-of-pointwise", "LRE n_local_points=%d" % nl)
             if nl == ntr and np.abs(pw - gre).max() > 1e-10 * max(1.0, gre.max()):
                 return r.fail("lre-with-all-neighbours-differs-from-gre", "max diff %.3g (estimator %s, indices %s)" % (np.abs(pw - gre).max(), est, idx))
-        if idx == "train=test":
+        if idx == "train=test" and not est.endswith("+cw"):  # the bound 1 belongs to the default (whole-matrix) scaling
             g = float(ev("GRE", X, Y, idx, est))
             if g > 1 + 1e-9:
                 return r.fail("training-set-gre-exceeds-one", "%.10g" % g)
